@@ -309,6 +309,7 @@ enum Plant {
 	UnknownVar,
 	Syntax,
 	Trace,
+	Lexical,
 }
 
 fn line_col(text: &str, offset: usize) -> (usize, usize) {
@@ -352,8 +353,8 @@ fn gen_planted(src: &mut Src) -> Planted {
 	code.push_str(&indent);
 	let prefix = *src.pick(&["", "[1, 2] + ", "1 + ", "\"é\" + ", "/* é */ ", "{ a: 1 }.a + ", "\t"]);
 	code.push_str(prefix);
-	let ascii_before_on_line = prefix.is_ascii();
-	let plant = *src.pick(&[Plant::Error, Plant::Assert, Plant::MissingField, Plant::UnknownVar, Plant::Syntax, Plant::Trace]);
+	let mut ascii_before_on_line = prefix.is_ascii();
+	let plant = *src.pick(&[Plant::Error, Plant::Assert, Plant::MissingField, Plant::UnknownVar, Plant::Syntax, Plant::Trace, Plant::Lexical]);
 	let multiline = src.chance(1, 4);
 	let brk = if multiline { nl } else { " " };
 	let offset;
@@ -384,6 +385,13 @@ fn gen_planted(src: &mut Src) -> Planted {
 		Plant::Trace => {
 			code.push_str("std.trace(\"planted\", 1)");
 			offset = code.len() - "std.trace(\"planted\", 1)".len();
+		}
+		Plant::Lexical => {
+			// a token the lexer itself rejects; only the line is demanded (which column of such a token is named is
+			// not pinned down)
+			offset = code.len();
+			ascii_before_on_line = false;
+			code.push_str(*src.pick(&["\"unterminated é", "'unterminated", "1.e5 + 2", "/* never closed", "1 + 2e + 3", "@\"verbatim"]));
 		}
 	}
 	let trailer = src.range(0, 2);
@@ -527,7 +535,7 @@ pub fn run(run: &Run) {
 		cli_planted_case(src, &dir, i)
 	});
 	let _ = std::fs::remove_dir_all(&dir);
-	for p in ["Error", "Assert", "MissingField", "UnknownVar", "Syntax", "Trace"] {
+	for p in ["Error", "Assert", "MissingField", "UnknownVar", "Syntax", "Trace", "Lexical"] {
 		run.require_class(&format!("plant:{p}"), 300);
 	}
 	run.require_class("nonascii-before", 2000);
